@@ -491,11 +491,21 @@ def check_program_ports(ctx, p):
                 if got != want:
                     ctx.disc(None, "program-port-kind", [type(op).__name__, side, off], want, got,
                              stratum="program", case=p)
-                elif want[0] == "value" and side == "out":
-                    ptype = h.port_type(mk(off))
-                    if ptype is None or dump_t(ptype) != want[1]:
-                        ctx.disc(None, "program-port-type", [type(op).__name__, side, off], want[1],
-                                 None if ptype is None else dump_t(ptype), stratum="program", case=p)
+                elif side == "out":
+                    # "the type reported for a value output port equals the payload of that port's kind" (and, as
+                    # Hugr.port_type documents, there is no type where the kind is not a value kind): every OUT
+                    # port, the order and static ones included; the statement does not speak about input ports
+                    ctx.count("monitor:program-port-type")
+                    try:
+                        ptype = h.port_type(mk(off))
+                        gt = None if ptype is None else dump_t(ptype)
+                    except Exception as e:  # noqa: BLE001
+                        gt = ["raised", type(e).__name__]
+                    wt = want[1] if want[0] == "value" else None
+                    # a port whose kind carries no type must not be given one: None or a refusal are both fine
+                    if gt != wt and not (wt is None and isinstance(gt, list) and gt[:1] == ["raised"]):
+                        ctx.disc(None, "program-port-type", [type(op).__name__, side, off, want[0]], wt, gt,
+                                 stratum="program", case=p)
     return len(h)
 
 
